@@ -338,9 +338,11 @@ def expanded_funcs(repo, classes):
             res = []
             for st in body:
                 callee = None
-                if isinstance(st, ast.Expr) and isinstance(st.value, ast.Call) and \
-                        astx.path(astx.receiver(st.value)) == 'self':
-                    callee = lookup(cls, astx.callee_attr(st.value))
+                if isinstance(st, ast.Expr) and isinstance(st.value, ast.Call):
+                    if astx.path(astx.receiver(st.value)) == 'self':
+                        callee = lookup(cls, astx.callee_attr(st.value))            # private helper method
+                    elif isinstance(st.value.func, ast.Name):
+                        callee = m.funcs.get(st.value.func.id)                      # module-level helper function
                     if callee is not None and (callee is f or not mentions_key(callee)):
                         callee = None
                 if callee is not None:
@@ -2968,6 +2970,15 @@ _DIAG_INIT = ("                if 'uncovered_nz' not in self.info:\n"
               "                    self.info['uncovered_threshold'] = uncovered_threshold\n"
               "                self.info['uncovered_nz'].extend(list(zip(nzs, icol * np.ones_like(nzs))))\n"
               "            column[icol] = save")
+_AUDIT_BLOCK = ("            arr = column.copy()\n            arr[rowinds] = 0.  # zero out the rows that are covered by sparsity\n"
+                "            " + _NZ + "\n            if nzs.size > 0:\n" + _GUARD3)
+_MODHELPER_CALL = "            _audit_uncovered_nz(self.info, icol, column, rowinds, uncovered_threshold)"
+_MODHELPER_DEF = ("\n\ndef _audit_uncovered_nz(info, icol, column, covered_rows, uncovered_threshold):\n"
+                  "    arr = column.copy()\n    arr[covered_rows] = 0.\n"
+                  "    nzs = np.where(np.abs(arr) > uncovered_threshold)[0]\n    if nzs.size > 0:\n"
+                  "        if 'uncovered_nz' not in info:\n            info['uncovered_nz'] = []\n"
+                  "            info['uncovered_threshold'] = uncovered_threshold\n"
+                  "        info['uncovered_nz'].extend(list(zip(nzs, icol * np.ones_like(nzs))))\n")
 _TV_FWD = ('errs.forward, err_vals.forward, above, abs_errs.forward, rel_errs.forward = \\\n'
            '                    get_tol_violation(Jforward, Jfd, atol, rtol)')
 _TV_REV = ('errs.reverse, err_vals.reverse, above, abs_errs.reverse, rel_errs.reverse = \\\n'
@@ -3094,6 +3105,14 @@ selftest(
            "            if (len(comp._var_allprocs_abs2meta['input']) == 0 or\n                    isinstance(comp, ExplicitComponent)):", 'C13.select'),
     Mutant('select-includes-inverted', PROB, 'if not match_includes_excludes(comp.pathname, includes, excludes):\n                continue\n\n            comp_stream', 'if match_includes_excludes(comp.pathname, includes, excludes):\n                continue\n\n            comp_stream', 'C13.select'),
     Mutant('select-result-only-when-printing', PROB, "            partials_data.update(partials)\n", "            if out_stream is not None:\n                partials_data.update(partials)\n", 'C13.select'),
+    Mutant('accum-module-helper-extend-under-init', SUBJAC, _AUDIT_BLOCK, _MODHELPER_CALL, 'C13.accum',
+           also=[(SUBJAC, _AUDIT_BLOCK, _MODHELPER_CALL + _MODHELPER_DEF.replace("        info['uncovered_nz'].extend(", "            info['uncovered_nz'].extend("))]),
+    Mutant('audit-module-helper-wrong-rows-passed', SUBJAC, _AUDIT_BLOCK, _MODHELPER_CALL, 'C13.audit',
+           also=[(SUBJAC, _AUDIT_BLOCK, _MODHELPER_CALL.replace('rowinds', 'icol') + _MODHELPER_DEF)]),
+    Mutant('schema-module-helper-no-threshold', SUBJAC, _AUDIT_BLOCK, _MODHELPER_CALL, 'C13.schema',
+           also=[(SUBJAC, _AUDIT_BLOCK, _MODHELPER_CALL + _MODHELPER_DEF.replace("            info['uncovered_threshold'] = uncovered_threshold\n", ''))]),
+    Mutant('thread-module-helper-call-dropped', SUBJAC, _AUDIT_BLOCK, '            pass', 'C13.thread',
+           also=[(SUBJAC, _AUDIT_BLOCK, _MODHELPER_CALL + _MODHELPER_DEF)]),
     Mutant('tolviol-signed-error', ARR, 'abs_error = np.abs(x - ref)', 'abs_error = x - ref', 'C13.tolviol'),
     Mutant('tolviol-difference-of-magnitudes', ARR, 'abs_error = np.abs(x - ref)', 'abs_error = np.abs(x) - np.abs(ref)', 'C13.tolviol'),
     Mutant('iter-delete-declared-pair', SYSTEM, '        if key in nondep_derivs and not above_tol:\n            del derivatives[key]\n            continue',
@@ -3182,6 +3201,9 @@ selftest(
          "            if isinstance(comp, ExplicitComponent):\n                if not len(comp._var_allprocs_abs2meta['input']) > 0:\n                    continue"),
     Twin('twin-select-not-implicit', PROB, "            if (len(comp._var_allprocs_abs2meta['input']) == 0 and\n                    isinstance(comp, ExplicitComponent)):",
          "            if not (isinstance(comp, ImplicitComponent) or len(comp._var_allprocs_abs2meta['input'])):"),
+    # module-level audit helper taking the metadata dict as an argument (benign/C13_b2_2)
+    Twin('twin-audit-module-level-helper', SUBJAC, _AUDIT_BLOCK, _MODHELPER_CALL, nth=0,
+         also=[(SUBJAC, _AUDIT_BLOCK, _MODHELPER_CALL + _MODHELPER_DEF)]),
     Twin('twin-tolviol-flipped-compare', ARR, 'np.any(diff > 0.)', 'np.any(0 < diff)'),
     Twin('twin-slots-or-assignment', SYSTEM, _TV_REV + '\n                above_tol |= above', _TV_REV + '\n                above_tol = above_tol or above'),
     Twin('twin-slots-temporaries', SYSTEM, _TV_REV, 'tv, vals, above, abs_errs.reverse, rel_errs.reverse = \\\n                    get_tol_violation(Jreverse, Jfd, atol, rtol)\n                errs.reverse = tv\n                err_vals.reverse = vals'),
